@@ -374,7 +374,9 @@ impl VM {
                     }
                     let obj = match Ethernet::from_bytes(Rc::clone(&pkt.rawdata.borrow()), 0) {
                         Ok(ethernet) => Rc::new(Object::Eth(Rc::new(ethernet))),
-                        Err(e) => Rc::new(Object::Err(ErrorObj::Packet(e))),
+                        // A layer that cannot be parsed (e.g. truncated) is not cached
+                        // so that the raw bytes are still written out unchanged
+                        Err(e) => return Ok(Rc::new(Object::Err(ErrorObj::Packet(e)))),
                     };
                     // Borrow the inner object again and replace its content
                     pkt.inner.replace(Some(obj.clone()));
@@ -460,7 +462,9 @@ impl VM {
                     }
                     let obj = match Vlan::from_bytes(Rc::clone(&eth.rawdata.borrow()), eth.offset) {
                         Ok(vlan) => Rc::new(Object::Vlan(Rc::new(vlan))),
-                        Err(e) => Rc::new(Object::Err(ErrorObj::Packet(e))),
+                        // A layer that cannot be parsed (e.g. truncated) is not cached
+                        // so that the raw bytes are still written out unchanged
+                        Err(e) => return Ok(Rc::new(Object::Err(ErrorObj::Packet(e)))),
                     };
                     // Borrow the inner object again and replace its content
                     eth.inner.replace(Some(obj.clone()));
@@ -480,7 +484,9 @@ impl VM {
                         eth.offset,
                     ) {
                         Ok(ipv4) => Rc::new(Object::Ipv4(Rc::new(ipv4))),
-                        Err(e) => Rc::new(Object::Err(ErrorObj::Packet(e))),
+                        // A layer that cannot be parsed (e.g. truncated) is not cached
+                        // so that the raw bytes are still written out unchanged
+                        Err(e) => return Ok(Rc::new(Object::Err(ErrorObj::Packet(e)))),
                     };
                     // Borrow the inner object again and replace its content
                     eth.inner.replace(Some(obj.clone()));
@@ -500,7 +506,9 @@ impl VM {
                         eth.offset,
                     ) {
                         Ok(ipv6) => Rc::new(Object::Ipv6(Rc::new(ipv6))),
-                        Err(e) => Rc::new(Object::Err(ErrorObj::Packet(e))),
+                        // A layer that cannot be parsed (e.g. truncated) is not cached
+                        // so that the raw bytes are still written out unchanged
+                        Err(e) => return Ok(Rc::new(Object::Err(ErrorObj::Packet(e)))),
                     };
                     eth.inner.replace(Some(obj.clone()));
                     obj
@@ -590,7 +598,9 @@ impl VM {
                     let obj = match Vlan::from_bytes(Rc::clone(&vlan.rawdata.borrow()), vlan.offset)
                     {
                         Ok(vlan) => Rc::new(Object::Vlan(Rc::new(vlan))),
-                        Err(e) => Rc::new(Object::Err(ErrorObj::Packet(e))),
+                        // A layer that cannot be parsed (e.g. truncated) is not cached
+                        // so that the raw bytes are still written out unchanged
+                        Err(e) => return Ok(Rc::new(Object::Err(ErrorObj::Packet(e)))),
                     };
                     // Borrow the inner object again and replace its content
                     vlan.inner.replace(Some(obj.clone()));
@@ -610,7 +620,9 @@ impl VM {
                         vlan.offset,
                     ) {
                         Ok(ipv4) => Rc::new(Object::Ipv4(Rc::new(ipv4))),
-                        Err(e) => Rc::new(Object::Err(ErrorObj::Packet(e))),
+                        // A layer that cannot be parsed (e.g. truncated) is not cached
+                        // so that the raw bytes are still written out unchanged
+                        Err(e) => return Ok(Rc::new(Object::Err(ErrorObj::Packet(e)))),
                     };
                     // Borrow the inner object again and replace its content
                     vlan.inner.replace(Some(obj.clone()));
@@ -783,7 +795,9 @@ impl VM {
                     let obj = match Udp::from_bytes(Rc::clone(&ipv4.rawdata.borrow()), ipv4.offset)
                     {
                         Ok(udp) => Rc::new(Object::Udp(Rc::new(udp))),
-                        Err(e) => Rc::new(Object::Err(ErrorObj::Packet(e))),
+                        // A layer that cannot be parsed (e.g. truncated) is not cached
+                        // so that the raw bytes are still written out unchanged
+                        Err(e) => return Ok(Rc::new(Object::Err(ErrorObj::Packet(e)))),
                     };
                     // Borrow the inner object again and replace its content
                     ipv4.inner.replace(Some(obj.clone()));
@@ -801,7 +815,9 @@ impl VM {
                     let obj = match Tcp::from_bytes(Rc::clone(&ipv4.rawdata.borrow()), ipv4.offset)
                     {
                         Ok(tcp) => Rc::new(Object::Tcp(Rc::new(tcp))),
-                        Err(e) => Rc::new(Object::Err(ErrorObj::Packet(e))),
+                        // A layer that cannot be parsed (e.g. truncated) is not cached
+                        // so that the raw bytes are still written out unchanged
+                        Err(e) => return Ok(Rc::new(Object::Err(ErrorObj::Packet(e)))),
                     };
                     // Borrow the inner object again and replace its content
                     ipv4.inner.replace(Some(obj.clone()));
@@ -821,7 +837,9 @@ impl VM {
                         ipv4.offset,
                     ) {
                         Ok(ipv6) => Rc::new(Object::Ipv6(Rc::new(ipv6))),
-                        Err(e) => Rc::new(Object::Err(ErrorObj::Packet(e))),
+                        // A layer that cannot be parsed (e.g. truncated) is not cached
+                        // so that the raw bytes are still written out unchanged
+                        Err(e) => return Ok(Rc::new(Object::Err(ErrorObj::Packet(e)))),
                     };
                     ipv4.inner.replace(Some(obj.clone()));
                     obj
@@ -944,7 +962,9 @@ impl VM {
                     let obj = match Udp::from_bytes(Rc::clone(&ipv6.rawdata.borrow()), ipv6.offset)
                     {
                         Ok(udp) => Rc::new(Object::Udp(Rc::new(udp))),
-                        Err(e) => Rc::new(Object::Err(ErrorObj::Packet(e))),
+                        // A layer that cannot be parsed (e.g. truncated) is not cached
+                        // so that the raw bytes are still written out unchanged
+                        Err(e) => return Ok(Rc::new(Object::Err(ErrorObj::Packet(e)))),
                     };
                     // Borrow the inner object again and replace its content
                     ipv6.inner.replace(Some(obj.clone()));
@@ -962,7 +982,9 @@ impl VM {
                     let obj = match Tcp::from_bytes(Rc::clone(&ipv6.rawdata.borrow()), ipv6.offset)
                     {
                         Ok(tcp) => Rc::new(Object::Tcp(Rc::new(tcp))),
-                        Err(e) => Rc::new(Object::Err(ErrorObj::Packet(e))),
+                        // A layer that cannot be parsed (e.g. truncated) is not cached
+                        // so that the raw bytes are still written out unchanged
+                        Err(e) => return Ok(Rc::new(Object::Err(ErrorObj::Packet(e)))),
                     };
                     // Borrow the inner object again and replace its content
                     ipv6.inner.replace(Some(obj.clone()));
